@@ -414,4 +414,835 @@ theorem nd_uniform_axis_constant (mean z : List ℝ) :
 example : noisyS [1, 2] (0.5 : ℝ) [2, -2] = [2, 1] := by
   simp [noisyS, nth]; norm_num
 
+/-! ### `meshgrid(indexing='ij')` + `flatten`: the tensor product in row-major order, for ANY number of axes -/
+
+section mesh
+variable {β : Type}
+
+theorem flatMap_replicate_length (x : List β) (m : ℕ) :
+    (x.flatMap (fun v => List.replicate m v)).length = x.length * m := by
+  induction x with
+  | nil => simp
+  | cons v x ih => simp only [List.flatMap_cons, List.length_append, List.length_replicate, ih, List.length_cons]; ring
+
+theorem flatten_replicate_length (col : List β) (L : ℕ) :
+    ((List.replicate L col).flatten).length = L * col.length := by
+  induction L with
+  | zero => simp
+  | succ L ih => simp only [List.replicate_succ, List.flatten_cons, List.length_append, ih]; ring
+
+theorem flatMap_replicate_getElem? (x : List β) (m p : ℕ) (hm : 0 < m) :
+    (x.flatMap (fun v => List.replicate m v))[p]? = x[p / m]? := by
+  induction x generalizing p with
+  | nil => simp
+  | cons v x ih =>
+    simp only [List.flatMap_cons]
+    by_cases hp : p < m
+    · rw [List.getElem?_append_left (by simpa using hp)]
+      simp [Nat.div_eq_of_lt hp, hp]
+    · have hp' : m ≤ p := by omega
+      rw [List.getElem?_append_right (by simpa using hp')]
+      simp only [List.length_replicate]
+      rw [ih]
+      have : p / m = (p - m) / m + 1 := by
+        conv_lhs => rw [← Nat.sub_add_cancel hp']
+        exact Nat.add_div_right _ hm
+      rw [this]; simp
+
+theorem flatten_replicate_getElem? (col : List β) (L p : ℕ) (hp : p < L * col.length) :
+    ((List.replicate L col).flatten)[p]? = col[p % col.length]? := by
+  induction L generalizing p with
+  | zero => simp at hp
+  | succ L ih =>
+    simp only [List.replicate_succ, List.flatten_cons]
+    by_cases h : p < col.length
+    · rw [List.getElem?_append_left h, Nat.mod_eq_of_lt h]
+    · have h' : col.length ≤ p := by omega
+      rw [List.getElem?_append_right h', ih _ (by rw [Nat.succ_mul] at hp; omega), ← Nat.mod_eq_sub_mod h']
+
+/-- one component per axis -/
+theorem mesh_length (xs : List (List β)) : (mesh xs).length = xs.length := by
+  induction xs with
+  | nil => rfl
+  | cons x rest ih => simp [mesh, ih]
+
+/-- every component has as many entries as the grid has points -/
+theorem mesh_col_length (xs : List (List β)) : ∀ col ∈ mesh xs, col.length = prodLen xs := by
+  induction xs with
+  | nil => intro col h; simp [mesh] at h
+  | cons x rest ih =>
+    intro col h
+    simp only [mesh, List.mem_cons, List.mem_map] at h
+    rcases h with rfl | ⟨c, hc, rfl⟩
+    · simp [prodLen]
+    · simp [prodLen, ih c hc]
+
+theorem getD_mem_of_lt (l : List (List β)) (k : ℕ) (hk : k < l.length) : l.getD k [] ∈ l := by
+  rw [List.getD_eq_getElem?_getD, List.getElem?_eq_getElem hk]; simp
+
+theorem prodLen_take_drop (xs : List (List β)) (k : ℕ) :
+    prodLen xs = prodLen (xs.take k) * prodLen (xs.drop k) := by
+  induction xs generalizing k with
+  | nil => simp [prodLen]
+  | cons x rest ih =>
+    cases k with
+    | zero => simp [prodLen]
+    | succ k => simp only [List.take_succ_cons, List.drop_succ_cons, prodLen, ih k]; ring
+
+theorem prodLen_drop (xs : List (List β)) (k : ℕ) (hk : k < xs.length) :
+    prodLen (xs.drop k) = (xs.getD k []).length * prodLen (xs.drop (k + 1)) := by
+  rw [List.drop_eq_getElem_cons hk, List.getD_eq_getElem?_getD, List.getElem?_eq_getElem hk]
+  simp [prodLen]
+
+/-- **grid = tensor product, N-D, by induction on the number of axes.**  Component `k` of the flattened
+    mesh, at flat position `p`, is node number `(p / (product of the later axis sizes)) mod (size of axis k)`
+    of axis `k` — the row-major (`'ij'`) unravelling of `p`. -/
+theorem grid_is_product (xs : List (List β)) : ∀ (k p : ℕ), k < xs.length → p < prodLen xs →
+    ((mesh xs).getD k [])[p]? =
+      (xs.getD k [])[(p / prodLen (xs.drop (k + 1))) % (xs.getD k []).length]? := by
+  induction xs with
+  | nil => intro k p hk; simp at hk
+  | cons x rest ih =>
+    intro k p hk hp
+    have hM : 0 < prodLen rest := by
+      rcases Nat.eq_zero_or_pos (prodLen rest) with h | h
+      · simp [prodLen, h] at hp
+      · exact h
+    cases k with
+    | zero =>
+      simp only [mesh, List.getD_cons_zero, List.drop_succ_cons, List.drop_zero]
+      rw [flatMap_replicate_getElem? _ _ _ hM]
+      have : p / prodLen rest < x.length := by
+        rw [Nat.div_lt_iff_lt_mul hM]; simpa [prodLen] using hp
+      rw [Nat.mod_eq_of_lt this]
+    | succ k =>
+      have hk' : k < rest.length := by simpa using hk
+      have hkm : k < (mesh rest).length := by rw [mesh_length]; exact hk'
+      simp only [mesh, List.getD_cons_succ, List.drop_succ_cons]
+      have hcol : ((mesh rest).map (fun col => (List.replicate x.length col).flatten)).getD k []
+          = (List.replicate x.length ((mesh rest).getD k [])).flatten := by
+        simp [List.getD_eq_getElem?_getD, List.getElem?_map, List.getElem?_eq_getElem hkm]
+      have hcl : ((mesh rest).getD k []).length = prodLen rest :=
+        mesh_col_length rest _ (getD_mem_of_lt _ _ hkm)
+      rw [hcol, flatten_replicate_getElem? _ _ _ (by rw [hcl]; simpa [prodLen] using hp), hcl,
+        ih k (p % prodLen rest) hk' (Nat.mod_lt _ hM)]
+      congr 1
+      have hsplit : prodLen rest =
+          prodLen (rest.drop (k + 1)) * ((rest.getD k []).length * prodLen (rest.take k)) := by
+        rw [prodLen_take_drop rest k, prodLen_drop rest k hk']; ring
+      rw [hsplit, Nat.mod_mul_right_div_self, Nat.mod_mul_right_mod]
+
+/-- every entry of component `k` is one of the nodes of axis `k` (domain membership transfers to grids) -/
+theorem mesh_mem (xs : List (List β)) (k : ℕ) (hk : k < xs.length) :
+    ∀ v ∈ (mesh xs).getD k [], v ∈ xs.getD k [] := by
+  intro v hv
+  have hkm : k < (mesh xs).length := by rw [mesh_length]; exact hk
+  have hcl := mesh_col_length xs _ (getD_mem_of_lt _ _ hkm)
+  obtain ⟨p, hp, rfl⟩ := List.getElem_of_mem hv
+  have := grid_is_product xs k p hk (by omega)
+  rw [List.getElem?_eq_getElem hp] at this
+  exact List.mem_of_getElem? this.symm
+
+/-- 2-D reading: entry `i * m + j` of component 0 is node `i` of the first axis, of component 1 node `j`
+    of the second axis (`m` = size of the second axis) -/
+theorem grid_is_product_2d (x y : List β) (i j : ℕ) (hi : i < x.length) (hj : j < y.length) :
+    ((mesh [x, y]).getD 0 [])[i * y.length + j]? = x[i]? ∧
+    ((mesh [x, y]).getD 1 [])[i * y.length + j]? = y[j]? := by
+  have hp : i * y.length + j < prodLen [x, y] := by
+    simp only [prodLen, Nat.mul_one]
+    calc i * y.length + j < i * y.length + y.length := by omega
+      _ = (i + 1) * y.length := by ring
+      _ ≤ x.length * y.length := Nat.mul_le_mul_right _ hi
+  have hdiv : (i * y.length + j) / y.length = i :=
+    Nat.div_eq_of_lt_le (by omega) (by rw [Nat.succ_mul]; omega)
+  constructor
+  · have := grid_is_product [x, y] 0 _ (by simp) hp
+    simpa [prodLen, hdiv, Nat.mod_eq_of_lt hi] using this
+  · have := grid_is_product [x, y] 1 _ (by simp) hp
+    simpa [prodLen, Nat.mul_add_mod_of_lt hj] using this
+
+/-- 3-D reading: entry `(i * m + j) * l + k` is node `(i, j, k)` -/
+theorem grid_is_product_3d (x y z : List β) (i j k : ℕ) (hi : i < x.length) (hj : j < y.length) (hk : k < z.length) :
+    ((mesh [x, y, z]).getD 0 [])[(i * y.length + j) * z.length + k]? = x[i]? ∧
+    ((mesh [x, y, z]).getD 1 [])[(i * y.length + j) * z.length + k]? = y[j]? ∧
+    ((mesh [x, y, z]).getD 2 [])[(i * y.length + j) * z.length + k]? = z[k]? := by
+  have hij : i * y.length + j < x.length * y.length := by
+    calc i * y.length + j < i * y.length + y.length := by omega
+      _ = (i + 1) * y.length := by ring
+      _ ≤ x.length * y.length := Nat.mul_le_mul_right _ hi
+  have hp : (i * y.length + j) * z.length + k < prodLen [x, y, z] := by
+    simp only [prodLen, Nat.mul_one]
+    calc (i * y.length + j) * z.length + k < (i * y.length + j) * z.length + z.length := by omega
+      _ = (i * y.length + j + 1) * z.length := by ring
+      _ ≤ (x.length * y.length) * z.length := Nat.mul_le_mul_right _ hij
+      _ = x.length * (y.length * z.length) := by ring
+  have hdz : ((i * y.length + j) * z.length + k) / z.length = i * y.length + j :=
+    Nat.div_eq_of_lt_le (by omega) (by rw [Nat.succ_mul]; omega)
+  have hdy : (i * y.length + j) / y.length = i :=
+    Nat.div_eq_of_lt_le (by omega) (by rw [Nat.succ_mul]; omega)
+  refine ⟨?_, ?_, ?_⟩
+  · have := grid_is_product [x, y, z] 0 _ (by simp) hp
+    have e : ((i * y.length + j) * z.length + k) / (y.length * z.length) = i := by
+      rw [Nat.mul_comm y.length, ← Nat.div_div_eq_div_mul, hdz, hdy]
+    simpa [prodLen, e, Nat.mod_eq_of_lt hi] using this
+  · have := grid_is_product [x, y, z] 1 _ (by simp) hp
+    simpa [prodLen, hdz, Nat.mul_add_mod_of_lt hj] using this
+  · have := grid_is_product [x, y, z] 2 _ (by simp) hp
+    simpa [prodLen, Nat.mul_add_mod_of_lt hk] using this
+
+example : mesh [[1, 2], [10, 20, 30]] = [[1, 1, 1, 2, 2, 2], [10, 20, 30, 10, 20, 30]] := by decide
+
+end mesh
+
+/-! ### noisy second-kind Chebyshev nodes: freshness -/
+
+theorem affCos_inj (a b c c' : ℝ) (hab : a < b) (h : affCos a b c = affCos a b c') : c = c' := by
+  unfold affCos at h
+  push_cast at h
+  have h2 : (b - a) * c = (b - a) * c' := by
+    have := congrArg (fun t => t * 2) h
+    simp only [div_mul_cancel_of_invertible] at this
+    linarith
+  exact mul_left_cancel₀ (by linarith : b - a ≠ 0) h2
+
+/-- **fresh, 'chebyshev2-noisy', interior nodes** (`1 ≤ i ≤ n − 2`): the perturbed angle stays in `[0, π]`,
+    where `cos` is injective, so the node determines the draw -/
+theorem fresh_cheb2noisy (a b : ℝ) (hab : a < b) (n i : ℕ) (h1 : 1 ≤ i) (h2 : i + 2 ≤ n) (u u' : ℝ)
+    (hu : 0 ≤ u ∧ u < 1) (hu' : 0 ≤ u' ∧ u' < 1)
+    (h : cheb2NoisyNode a b n i u = cheb2NoisyNode a b n i u') : u = u' := by
+  have hd : ((n - 1 : ℕ) : ℝ) = (n : ℝ) - 1 := cast_pred n (by omega)
+  have hdpos : (0 : ℝ) < (n : ℝ) - 1 := by
+    have : (2 : ℝ) ≤ (n : ℝ) := by exact_mod_cast (by omega : 2 ≤ n)
+    linarith
+  have hi1 : (1 : ℝ) ≤ (i : ℝ) := by exact_mod_cast h1
+  have hin : (i : ℝ) + 1 ≤ (n : ℝ) - 1 := by
+    have : ((i + 2 : ℕ) : ℝ) ≤ (n : ℝ) := by exact_mod_cast h2
+    push_cast at this; linarith
+  have hc := affCos_inj a b _ _ hab h
+  simp only [fn_cos, fn_pi, hd] at hc
+  push_cast at hc
+  have hpi := Real.pi_pos
+  have rng : ∀ v : ℝ, 0 ≤ v ∧ v < 1 →
+      ((i : ℝ) + (v * 2 - 1)) / ((n : ℝ) - 1) * Real.pi ∈ Set.Icc 0 Real.pi := by
+    intro v hv
+    have t0 : 0 ≤ ((i : ℝ) + (v * 2 - 1)) / ((n : ℝ) - 1) := div_nonneg (by linarith [hv.1]) hdpos.le
+    have t1 : ((i : ℝ) + (v * 2 - 1)) / ((n : ℝ) - 1) ≤ 1 := (div_le_one hdpos).mpr (by linarith [hv.2])
+    constructor
+    · positivity
+    · nlinarith
+  have := Real.injOn_cos (rng u hu) (rng u' hu') hc
+  have h3 : ((i : ℝ) + (u * 2 - 1)) / ((n : ℝ) - 1) = ((i : ℝ) + (u' * 2 - 1)) / ((n : ℝ) - 1) :=
+    mul_right_cancel₀ hpi.ne' this
+  have h4 := (div_left_inj' hdpos.ne').1 h3
+  linarith
+
+theorem cos_fold_inj (d : ℝ) (hd : 1 ≤ d) (u u' : ℝ) (hu : 0 ≤ u ∧ u < 1) (hu' : 0 ≤ u' ∧ u' < 1)
+    (hc : Real.cos ((u * 2 - 1) / d * Real.pi) = Real.cos ((u' * 2 - 1) / d * Real.pi)) : u = u' ∨ u + u' = 1 := by
+  have hpi := Real.pi_pos
+  have hd0 : (0 : ℝ) < d := by linarith
+  have rng : ∀ v : ℝ, 0 ≤ v ∧ v < 1 → |(v * 2 - 1) / d * Real.pi| ∈ Set.Icc 0 Real.pi := by
+    intro v hv
+    refine ⟨abs_nonneg _, ?_⟩
+    rw [abs_mul, abs_div, abs_of_pos hpi, abs_of_pos hd0]
+    have t1 : |v * 2 - 1| / d ≤ 1 := by
+      rw [div_le_one hd0]
+      have : |v * 2 - 1| ≤ 1 := abs_le.2 ⟨by linarith [hv.1], by linarith [hv.2]⟩
+      linarith
+    nlinarith [abs_nonneg (v * 2 - 1)]
+  rw [← Real.cos_abs ((u * 2 - 1) / d * Real.pi), ← Real.cos_abs ((u' * 2 - 1) / d * Real.pi)] at hc
+  have habs := Real.injOn_cos (rng u hu) (rng u' hu') hc
+  rcases abs_eq_abs.1 habs with e | e
+  · left
+    have h3 := mul_right_cancel₀ hpi.ne' e
+    have h4 := (div_left_inj' hd0.ne').1 h3
+    linarith
+  · right
+    have e' : (u * 2 - 1) / d * Real.pi = (-(u' * 2 - 1)) / d * Real.pi := by
+      rw [e]; ring
+    have h3 := mul_right_cancel₀ hpi.ne' e'
+    have h4 := (div_left_inj' hd0.ne').1 h3
+    linarith
+
+/-- **fresh, 'chebyshev2-noisy', first node** (`i = 0`): the angle range straddles `0`, where `cos` folds, so
+    the node fixes the draw up to the reflection `u ↦ 1 − u` (a null set of coincidences) -/
+theorem fresh_cheb2noisy_first (a b : ℝ) (hab : a < b) (n : ℕ) (hn : 2 ≤ n) (u u' : ℝ)
+    (hu : 0 ≤ u ∧ u < 1) (hu' : 0 ≤ u' ∧ u' < 1)
+    (h : cheb2NoisyNode a b n 0 u = cheb2NoisyNode a b n 0 u') : u = u' ∨ u + u' = 1 := by
+  have hd : ((n - 1 : ℕ) : ℝ) = (n : ℝ) - 1 := cast_pred n (by omega)
+  have hdpos : (1 : ℝ) ≤ (n : ℝ) - 1 := by
+    have : (2 : ℝ) ≤ (n : ℝ) := by exact_mod_cast hn
+    linarith
+  have hc := affCos_inj a b _ _ hab h
+  simp only [fn_cos, fn_pi, hd] at hc
+  push_cast at hc
+  simp only [zero_add] at hc
+  exact cos_fold_inj _ hdpos u u' hu hu' hc
+
+/-- **fresh, 'chebyshev2-noisy', last node** (`i = n − 1`): the same fold, around `π` -/
+theorem fresh_cheb2noisy_last (a b : ℝ) (hab : a < b) (n : ℕ) (hn : 2 ≤ n) (u u' : ℝ)
+    (hu : 0 ≤ u ∧ u < 1) (hu' : 0 ≤ u' ∧ u' < 1)
+    (h : cheb2NoisyNode a b n (n - 1) u = cheb2NoisyNode a b n (n - 1) u') : u = u' ∨ u + u' = 1 := by
+  have hd : ((n - 1 : ℕ) : ℝ) = (n : ℝ) - 1 := cast_pred n (by omega)
+  have hdpos : (1 : ℝ) ≤ (n : ℝ) - 1 := by
+    have : (2 : ℝ) ≤ (n : ℝ) := by exact_mod_cast hn
+    linarith
+  have hne : (n : ℝ) - 1 ≠ 0 := by linarith
+  have hc := affCos_inj a b _ _ hab h
+  simp only [fn_cos, fn_pi, hd] at hc
+  push_cast at hc
+  have shift : ∀ v : ℝ, ((n : ℝ) - 1 + (v * 2 - 1)) / ((n : ℝ) - 1) * Real.pi
+      = (v * 2 - 1) / ((n : ℝ) - 1) * Real.pi + Real.pi := by
+    intro v; field_simp; ring
+  rw [shift u, shift u', Real.cos_add_pi, Real.cos_add_pi] at hc
+  exact cos_fold_inj _ hdpos u u' hu hu' (neg_inj.1 hc)
+
+/-! ### GeneratorND noise scales -/
+
+theorem axis_nodes_length (ax : Axis ℝ) (u : List ℝ) : (ax.nodes u).1.length = ax.n ∧ (ax.nodes u).2.length = ax.n := by
+  unfold Axis.nodes
+  cases ax.m <;> simp [linspace, uniform, logspace, expspace, cheb1, cheb2]
+
+/-- the noise scale of every node of an 'equally-spaced' / Chebyshev / 'log-spaced' axis is positive (default
+    scale, `a < b`; positive lower bound for log spacing) — with `fresh_noisyT`: these axes are fresh -/
+theorem nd_std_pos (ax : Axis ℝ) (hab : ax.a < ax.b) (hn : 0 < ax.n) (hnoise : ax.noise = none)
+    (hm : ax.m = .eq ∨ ax.m = .cheb1 ∨ ax.m = .cheb2 ∨ (ax.m = .log ∧ 0 < ax.a)) (u : List ℝ) :
+    ∀ s ∈ (ax.nodes u).2, 0 < s := by
+  have hs : 0 < ax.std := by
+    unfold Axis.std; rw [hnoise]; exact defaultStd_pos _ _ hab _ hn
+  intro s hmem
+  rcases hm with h | h | h | ⟨h, ha⟩
+  · simp only [Axis.nodes, h, List.mem_map] at hmem
+    obtain ⟨_, _, rfl⟩ := hmem
+    push_cast; linarith
+  · simp only [Axis.nodes, h, List.mem_map] at hmem
+    obtain ⟨_, _, rfl⟩ := hmem
+    push_cast; linarith
+  · simp only [Axis.nodes, h, List.mem_map] at hmem
+    obtain ⟨_, _, rfl⟩ := hmem
+    push_cast; linarith
+  · simp only [Axis.nodes, h, List.mem_map, logspace, List.mem_range] at hmem
+    obtain ⟨_, ⟨i, _, rfl⟩, rfl⟩ := hmem
+    exact mul_pos hs (log_operands_pos _ _ ha hab.le _ _).2.2
+
+/-- 'exp-spaced': the scale `|noise_rstd · x|` is never negative (the operand `torch.normal` insists on) … -/
+theorem nd_exp_std_nonneg (ax : Axis ℝ) (hm : ax.m = .exp) (u : List ℝ) : ∀ s ∈ (ax.nodes u).2, 0 ≤ s := by
+  intro s hmem
+  simp only [Axis.nodes, hm, List.mem_map] at hmem
+  obtain ⟨_, _, rfl⟩ := hmem
+  exact abs_nonneg _
+
+/-- … positive on a positive domain (nodes `≥ a > 0`), so those axes are fresh … -/
+theorem nd_exp_std_pos (ax : Axis ℝ) (hm : ax.m = .exp) (hbase : 1 < ax.base) (ha : 0 < ax.a) (hab : ax.a < ax.b)
+    (hn : 0 < ax.n) (hnoise : ax.noise = none) (u : List ℝ) : ∀ s ∈ (ax.nodes u).2, 0 < s := by
+  have hs : 0 < ax.std := by
+    unfold Axis.std; rw [hnoise]; exact defaultStd_pos _ _ hab _ hn
+  intro s hmem
+  simp only [Axis.nodes, hm, List.mem_map, expspace, List.mem_range] at hmem
+  obtain ⟨_, ⟨i, hi, rfl⟩, rfl⟩ := hmem
+  have := (expNode_mem_Icc ax.base ax.a ax.b hbase hab.le ax.n i hi).1
+  simp only [fn_abs]
+  exact abs_pos.2 (mul_pos hs (lt_of_lt_of_le ha this)).ne'
+
+/-- … and zero at a node that is exactly `0`: with `r_min = 0` the first node never moves (with a single-node
+    grid the whole axis is frozen) — reported to the lead as a borderline finding -/
+theorem nd_exp_std_zero_witness :
+    ((⟨.exp, 1, 0, 1, 10, none⟩ : Axis ℝ).nodes []) = ([0], [0]) := by
+  have h := expNode_zero 10 0 1 (by norm_num) 1
+  simp [Axis.nodes, expspace, h]
+
+/-! ### GeneratorSpherical -/
+
+theorem sgn_cases (k : ℕ) (hk : k ≤ 1) : (sgn k : ℝ) = -1 ∨ (sgn k : ℝ) = 1 := by
+  have hk' : k = 0 ∨ k = 1 := by omega
+  rcases hk' with rfl | rfl
+  · left; simp [sgn]
+  · right; simp [sgn]; norm_num
+
+theorem clamp1_mem (z : ℝ) : clamp1 z ∈ Set.Icc (-1 : ℝ) 1 := by
+  unfold clamp1
+  push_cast
+  exact ⟨le_min (le_max_right _ _) (by norm_num), min_le_right _ _⟩
+
+/-- **θ ∈ [0, π]** for all draws -/
+theorem spherical_theta_mem (a b c : ℝ) (kz : ℕ) : sphTheta a b c kz ∈ Set.Icc 0 Real.pi := by
+  simp only [sphTheta, fn_acos]
+  exact ⟨Real.arccos_nonneg _, Real.arccos_le_pi _⟩
+
+/-- **φ ∈ [0, 2π)** for all draws: `atan2` has range `(−π, π]` -/
+theorem spherical_phi_mem_Ico (a b c : ℝ) (kx ky : ℕ) : sphPhi a b c kx ky ∈ Set.Ico 0 (2 * Real.pi) := by
+  simp only [sphPhi, fn_atan2, fn_pi]
+  have h1 := Complex.arg_le_pi ⟨sphCart a b c a kx, sphCart a b c b ky⟩
+  have h2 := Complex.neg_pi_lt_arg ⟨sphCart a b c a kx, sphCart a b c b ky⟩
+  constructor <;> linarith
+
+/-- **r ∈ [r_min, r_max]** for both radial laws, for every uniform draw (`0 ≤ r_min ≤ r_max` is what the
+    constructor enforces, see `ctorOk_sph`) -/
+theorem spherical_r_mem (c : CfgS ℝ) (h0 : 0 ≤ c.rmin) (h1 : c.rmin ≤ c.rmax) (u : ℝ) (hu : 0 ≤ u ∧ u < 1) :
+    sphR c u ∈ Set.Icc c.rmin c.rmax := by
+  have hR : 0 ≤ c.rmax := le_trans h0 h1
+  have hd : 0 ≤ c.rmax * c.rmax - c.rmin * c.rmin := by nlinarith
+  have p0 := mul_nonneg hd hu.1
+  have p1 := mul_le_of_le_one_right hd hu.2.le
+  unfold sphR
+  split
+  · simp only [fn_sqrt]
+    constructor
+    · calc c.rmin = Real.sqrt (c.rmin * c.rmin) := (Real.sqrt_mul_self h0).symm
+        _ ≤ _ := Real.sqrt_le_sqrt (by linarith)
+    · calc _ ≤ Real.sqrt (c.rmax * c.rmax) := Real.sqrt_le_sqrt (by linarith)
+        _ = c.rmax := Real.sqrt_mul_self hR
+  · have q0 := mul_nonneg (sub_nonneg.2 h1) hu.1
+    have q1 := mul_le_of_le_one_right (sub_nonneg.2 h1) hu.2.le
+    constructor <;> linarith
+
+/-- **no-NaN, spherical**: every operand stays in the domain of its operation — the denominator is non-zero,
+    the three `sqrt` operands are non-negative, the `acos` operand is in `[-1, 1]` (because of the clamp), `atan2`
+    is evaluated away from the origin, the radial `sqrt` operand is non-negative.  `0 < a + b + c` is an explicit
+    hypothesis: three uniform draws that are all exactly `0` make the real code compute `0/0`. -/
+theorem spherical_operands_ok (a b c : ℝ) (ha : 0 ≤ a) (hb : 0 ≤ b) (hc : 0 ≤ c) (hden : 0 < a + b + c)
+    (kx ky kz : ℕ) (hkx : kx ≤ 1) (hky : ky ≤ 1) (cfg : CfgS ℝ) (h0 : 0 ≤ cfg.rmin) (h1 : cfg.rmin ≤ cfg.rmax)
+    (u : ℝ) (hu : 0 ≤ u ∧ u < 1) :
+    a + b + c ≠ 0 ∧ 0 ≤ a / (a + b + c) ∧ 0 ≤ b / (a + b + c) ∧ 0 ≤ c / (a + b + c) ∧
+    clamp1 (sphCart a b c c kz) ∈ Set.Icc (-1 : ℝ) 1 ∧
+    sphCart a b c a kx ≠ 0 ∧ sphCart a b c b ky ≠ 0 ∧
+    0 ≤ (cfg.rmax * cfg.rmax - cfg.rmin * cfg.rmin) * u + cfg.rmin * cfg.rmin := by
+  have key : ∀ w : ℝ, ∀ k : ℕ, k ≤ 1 → sphCart a b c w k ≠ 0 := by
+    intro w k hk
+    unfold sphCart
+    simp only [fn_sqrt]
+    have : (0 : ℝ) < Real.sqrt (w / (a + b + c)) + 1e-6 := by
+      have := Real.sqrt_nonneg (w / (a + b + c))
+      norm_num; linarith
+    rcases sgn_cases k hk with e | e <;> rw [e] <;> intro hz <;> nlinarith
+  refine ⟨hden.ne', div_nonneg ha hden.le, div_nonneg hb hden.le, div_nonneg hc hden.le, clamp1_mem _,
+    key a kx hkx, key b ky hky, ?_⟩
+  have hd : 0 ≤ cfg.rmax * cfg.rmax - cfg.rmin * cfg.rmin := by nlinarith
+  have p0 := mul_nonneg hd hu.1
+  have p2 := mul_nonneg h0 h0
+  linarith
+
+/-- why the clamp is needed (the defect repaired in 5016450): draws `a = b = 0`, `c = 1`, sign `+` give
+    `z = 1 + 10⁻⁶ > 1`, outside the domain of `acos` -/
+theorem spherical_unclamped_exceeds_one : (1 : ℝ) < sphCart (0 : ℝ) 0 1 1 1 := by
+  simp [sphCart, sgn]; norm_num
+
+/-- **fresh, spherical**: the radius is an injective function of its uniform draw (both laws), so a new draw
+    gives a new point; every call consumes seven new draws and the model keeps no state between calls -/
+theorem spherical_fresh_r (c : CfgS ℝ) (h0 : 0 ≤ c.rmin) (h1 : c.rmin < c.rmax) (u u' : ℝ) (hu : 0 ≤ u) (hu' : 0 ≤ u')
+    (h : sphR c u = sphR c u') : u = u' := by
+  have hR : 0 < c.rmax := lt_of_le_of_lt h0 h1
+  have hd : 0 < c.rmax * c.rmax - c.rmin * c.rmin := by nlinarith
+  unfold sphR at h
+  split at h
+  · simp only [fn_sqrt] at h
+    have e := (Real.sqrt_inj (by nlinarith [mul_nonneg h0 h0]) (by nlinarith [mul_nonneg h0 h0])).1 h
+    have : (c.rmax * c.rmax - c.rmin * c.rmin) * u = (c.rmax * c.rmax - c.rmin * c.rmin) * u' := by linarith
+    exact mul_left_cancel₀ hd.ne' this
+  · have : (c.rmax - c.rmin) * u = (c.rmax - c.rmin) * u' := by linarith
+    exact mul_left_cancel₀ (by linarith : c.rmax - c.rmin ≠ 0) this
+
+example : genSph (⟨.radius, 1, 1, 3⟩ : CfgS ℝ) [.f [0], .f [0], .f [1], .n [1], .n [1], .n [1], .f [0.5]]
+    = [[2], [Real.arccos (min (max (1 + 1e-6) (-1)) 1)], [-Complex.arg ⟨1e-6, 1e-6⟩ + Real.pi]] := by
+  simp [genSph, sphR, sphTheta, sphPhi, sphCart, sgn, clamp1, dF, dN, nth, Draw.fl, Draw.nat]
+  norm_num
+
+/-! ### constructor guards -/
+
+/-- a 1-D log method that got past `_compute_log_negative` has positive bounds -/
+theorem ctorOk_log_pos (c : Cfg1 ℝ) (hm : c.m = .log ∨ c.m = .logNoisy) (h : c.ctorOk = true) :
+    0 < c.a ∧ 0 < c.b := by
+  unfold Cfg1.ctorOk at h
+  rcases hm with e | e <;> rw [e] at h <;> simp at h <;> exact h
+
+/-- a spherical generator that got past the range check has `0 ≤ r_min ≤ r_max` -/
+theorem ctorOk_sph (c : CfgS ℝ) (h : c.ctorOk = true) : 0 ≤ c.rmin ∧ c.rmin ≤ c.rmax := by
+  unfold CfgS.ctorOk at h
+  simp at h
+  exact h
+
+/-! ### the five classes together: tensor count, lengths, `requires_grad`, determinism -/
+
+/-- the `k`-th recorded draw has the length the consumption table says -/
+def fitsAt (ds : List (Draw ℝ)) (k : ℕ) : Kind × ℕ → Prop
+  | (.rand, n) => (dF ds k).length = n
+  | (.normal, n) => (dF ds k).length = n
+  | (.perm, n) => (dN ds k).length = n
+  | (.int2, n) => (dN ds k).length = n
+
+/-- draws shaped as the RNG primitives return them (`torch.rand(n)` has `n` entries, …) -/
+def Fits (ds : List (Draw ℝ)) (shape : List (Kind × ℕ)) : Prop :=
+  ∀ k (h : k < shape.length), fitsAt ds k shape[k]
+
+theorem requires_grad_all (cfg : Cfg ℝ) : cfg.requiresGrad = true := rfl
+
+theorem length_noisyS (mean : List ℝ) (s : ℝ) (z : List ℝ) : (noisyS mean s z).length = mean.length := by
+  simp [noisyS]
+theorem length_noisyT (mean std z : List ℝ) : (noisyT mean std z).length = mean.length := by
+  simp [noisyT]
+theorem length_noisy3 (g : List ℝ) (s : ℝ) (z : List ℝ) : (noisy3 g s z).length = g.length := by
+  simp [noisy3]
+
+theorem axes2_shape (c : Cfg2 ℝ) (ctor call : List (Draw ℝ)) (hf : Fits ctor c.ctorShape) :
+    ∃ x y, c.axes ctor call = [x, y] ∧ x.length = c.n0 ∧ y.length = c.n1 := by
+  unfold Cfg2.axes
+  cases hm : c.m
+  case lhs =>
+    have h1 := hf 1 (by simp [Cfg2.ctorShape, hm])
+    have h3 := hf 3 (by simp [Cfg2.ctorShape, hm])
+    simp only [Cfg2.ctorShape, hm, fitsAt] at h1 h3
+    exact ⟨_, _, rfl, by simpa [lhs] using h1, by simpa [lhs] using h3⟩
+  all_goals exact ⟨_, _, rfl, by simp [linspace, cheb1, cheb2, cheb2Noisy], by simp [linspace, cheb1, cheb2, cheb2Noisy]⟩
+
+theorem axes3_shape (c : Cfg3 ℝ) (ctor : List (Draw ℝ)) (hf : Fits ctor c.ctorShape) :
+    ∃ x y z, c.axes ctor = [x, y, z] ∧ x.length = c.n0 ∧ y.length = c.n1 ∧ z.length = c.n2 := by
+  unfold Cfg3.axes
+  cases hm : c.m
+  case lhs =>
+    have h1 := hf 1 (by simp [Cfg3.ctorShape, hm])
+    have h3 := hf 3 (by simp [Cfg3.ctorShape, hm])
+    have h5 := hf 5 (by simp [Cfg3.ctorShape, hm])
+    simp only [Cfg3.ctorShape, hm, fitsAt] at h1 h3 h5
+    exact ⟨_, _, _, rfl, by simpa [lhs] using h1, by simpa [lhs] using h3, by simpa [lhs] using h5⟩
+  all_goals exact ⟨_, _, _, rfl, by simp [linspace, cheb1, cheb2], by simp [linspace, cheb1, cheb2],
+    by simp [linspace, cheb1, cheb2]⟩
+
+theorem ndAxes_length (axes : List (Axis ℝ)) : ∀ ds, (ndAxes axes ds).length = axes.length := by
+  induction axes with
+  | nil => intro ds; rfl
+  | cons ax rest ih =>
+    intro ds
+    unfold ndAxes
+    split <;> simp [ih]
+
+theorem ndAxes_prodLen (axes : List (Axis ℝ)) : ∀ ds,
+    prodLen ((ndAxes axes ds).map (·.1)) = (axes.map (·.n)).foldr (· * ·) 1 ∧
+    prodLen ((ndAxes axes ds).map (·.2)) = (axes.map (·.n)).foldr (· * ·) 1 := by
+  induction axes with
+  | nil => intro ds; simp [ndAxes, prodLen]
+  | cons ax rest ih =>
+    intro ds
+    unfold ndAxes
+    split <;> simp [prodLen, ih, axis_nodes_length]
+
+theorem getD_mapIdx_mem {γ δ : Type} (l : List γ) (f : ℕ → γ → δ) (x : δ) (hx : x ∈ l.mapIdx f) :
+    ∃ k, ∃ h : k < l.length, x = f k l[k] := by
+  obtain ⟨k, hk, rfl⟩ := List.getElem_of_mem hx
+  have hk' : k < l.length := by simpa using hk
+  exact ⟨k, hk', by simp⟩
+
+/-- **one tensor per dimension** -/
+theorem dims_eq (cfg : Cfg ℝ) (ctor call : List (Draw ℝ)) (hc : Fits ctor cfg.ctorShape) :
+    (run cfg ctor call).length = cfg.dims := by
+  cases cfg with
+  | g1 c => simp only [run, gen1d, Cfg.dims]; cases c.m <;> rfl
+  | g2 c =>
+    obtain ⟨x, y, h, -, -⟩ := axes2_shape c ctor call hc
+    simp only [run, gen2d, Cfg.dims, h]
+    cases c.m <;> simp [mesh]
+  | g3 c =>
+    obtain ⟨x, y, z, h, -, -, -⟩ := axes3_shape c ctor hc
+    simp only [run, gen3d, Cfg.dims, h]
+    cases c.m <;> simp [mesh]
+  | nd c =>
+    simp only [run, genNd, Cfg.dims, CfgN.gridR]
+    split <;> simp [mesh_length, ndAxes_length]
+  | sph c => simp [run, genSph, Cfg.dims]
+
+/-- **every returned tensor has exactly `generator.size` entries** (draws shaped as the RNG returns them) -/
+theorem len_eq_size (cfg : Cfg ℝ) (ctor call : List (Draw ℝ)) (hc : Fits ctor cfg.ctorShape)
+    (hk : Fits call cfg.callShape) : ∀ col ∈ run cfg ctor call, col.length = cfg.size := by
+  cases cfg with
+  | g1 c =>
+    intro col hcol
+    simp only [run, gen1d, Cfg.size] at hcol ⊢
+    cases hm : c.m <;> rw [hm] at hcol <;> simp only [List.mem_singleton] at hcol <;> subst hcol
+    case lhs =>
+      have h1 := hk 1 (by simp [Cfg.callShape, Cfg1.callShape, hm])
+      simp only [Cfg.callShape, Cfg1.callShape, hm, fitsAt] at h1
+      simpa [lhs] using h1
+    all_goals simp [length_noisyS, uniform, linspace, logspace, cheb1, cheb2, cheb2Noisy]
+  | g2 c =>
+    obtain ⟨x, y, h, hx, hy⟩ := axes2_shape c ctor call hc
+    have hp : prodLen [x, y] = c.n0 * c.n1 := by simp [prodLen, hx, hy]
+    have hcols : ∀ col ∈ mesh [x, y], col.length = c.n0 * c.n1 := fun col hcol => by
+      rw [mesh_col_length _ col hcol, hp]
+    have h0 : ((mesh [x, y]).getD 0 []).length = c.n0 * c.n1 := hcols _ (getD_mem_of_lt _ _ (by simp [mesh_length]))
+    have h1 : ((mesh [x, y]).getD 1 []).length = c.n0 * c.n1 := hcols _ (getD_mem_of_lt _ _ (by simp [mesh_length]))
+    intro col hcol
+    simp only [run, gen2d, Cfg.size, h] at hcol ⊢
+    cases hm : c.m <;> rw [hm] at hcol
+    case eqNoisy =>
+      simp only [List.mem_cons, List.not_mem_nil, or_false] at hcol
+      rcases hcol with rfl | rfl
+      · rw [length_noisyS, h0]
+      · rw [length_noisyS, h1]
+    all_goals exact hcols col hcol
+  | g3 c =>
+    obtain ⟨x, y, z, h, hx, hy, hz⟩ := axes3_shape c ctor hc
+    have hp : prodLen [x, y, z] = c.n0 * c.n1 * c.n2 := by simp [prodLen, hx, hy, hz]; ring
+    have hcols : ∀ col ∈ mesh [x, y, z], col.length = c.n0 * c.n1 * c.n2 := fun col hcol => by
+      rw [mesh_col_length _ col hcol, hp]
+    have g : ∀ k, k < 3 → ((mesh [x, y, z]).getD k []).length = c.n0 * c.n1 * c.n2 := fun k hk3 =>
+      hcols _ (getD_mem_of_lt _ _ (by simp [mesh_length]; omega))
+    intro col hcol
+    simp only [run, gen3d, Cfg.size, h] at hcol ⊢
+    cases hm : c.m <;> rw [hm] at hcol
+    case eqNoisy =>
+      simp only [List.mem_cons, List.not_mem_nil, or_false] at hcol
+      rcases hcol with rfl | rfl | rfl
+      · rw [length_noisy3, g 0 (by omega)]
+      · rw [length_noisy3, g 1 (by omega)]
+      · rw [length_noisy3, g 2 (by omega)]
+    all_goals exact hcols col hcol
+  | nd c =>
+    have hcols : ∀ col ∈ c.gridR ctor, col.length = c.size := fun col hcol => by
+      rw [CfgN.gridR] at hcol
+      rw [mesh_col_length _ col hcol, (ndAxes_prodLen c.axes ctor).1]; rfl
+    intro col hcol
+    simp only [run, genNd, Cfg.size] at hcol ⊢
+    split at hcol
+    · obtain ⟨k, hk', rfl⟩ := getD_mapIdx_mem _ _ _ hcol
+      rw [length_noisyT]
+      exact hcols _ (List.getElem_mem hk')
+    · exact hcols col hcol
+  | sph c =>
+    intro col hcol
+    simp only [run, genSph, Cfg.size, List.mem_cons, List.not_mem_nil, or_false] at hcol ⊢
+    rcases hcol with rfl | rfl | rfl <;> simp
+
+/-- the methods whose points are fixed once the generator is built (for Generator2D/3D 'latin-hypercube' the
+    sample is drawn by the constructor; for GeneratorND every method without `noisy`) -/
+def fixedMethod : Cfg ℝ → Bool
+  | .g1 c => match c.m with
+    | .eq | .log | .cheb1 | .cheb2 => true
+    | _ => false
+  | .g2 c => match c.m with
+    | .eq | .cheb1 | .cheb2 | .lhs => true
+    | _ => false
+  | .g3 c => match c.m with
+    | .eq | .cheb1 | .cheb2 | .lhs => true
+    | _ => false
+  | .nd c => !c.noisy
+  | .sph _ => false
+
+/-- **deterministic methods return identical points on every call**: the output does not depend on the
+    call's draws — and the call consumes none -/
+theorem deterministic (cfg : Cfg ℝ) (h : fixedMethod cfg = true) (ctor call call' : List (Draw ℝ)) :
+    run cfg ctor call = run cfg ctor call' ∧ cfg.callShape = [] := by
+  cases cfg with
+  | g1 c =>
+    simp only [fixedMethod] at h
+    simp only [run, gen1d, Cfg.callShape, Cfg1.callShape]
+    cases hm : c.m <;> simp_all
+  | g2 c =>
+    simp only [fixedMethod] at h
+    simp only [run, gen2d, Cfg2.axes, Cfg.callShape, Cfg2.callShape]
+    cases hm : c.m <;> simp_all
+  | g3 c =>
+    simp only [fixedMethod] at h
+    simp only [run, gen3d, Cfg.callShape, Cfg3.callShape]
+    cases hm : c.m <;> simp_all
+  | nd c =>
+    simp only [fixedMethod, Bool.not_eq_true'] at h
+    simp [run, genNd, Cfg.callShape, CfgN.callShape, h]
+  | sph c => simp [fixedMethod] at h
+
+/-- the grid classes return the mesh of their per-axis node lists (so `grid_is_product` applies to them) -/
+theorem gen2d_is_mesh (c : Cfg2 ℝ) (hm : c.m ≠ .eqNoisy) (ctor call : List (Draw ℝ)) :
+    gen2d c ctor call = mesh (c.axes ctor call) := by
+  unfold gen2d
+  cases h : c.m <;> simp_all
+
+theorem gen3d_is_mesh (c : Cfg3 ℝ) (hm : c.m ≠ .eqNoisy) (ctor call : List (Draw ℝ)) :
+    gen3d c ctor call = mesh (c.axes ctor) := by
+  unfold gen3d
+  cases h : c.m <;> simp_all
+
+theorem genNd_is_mesh (c : CfgN ℝ) (hm : c.noisy = false) (ctor call : List (Draw ℝ)) :
+    genNd c ctor call = mesh ((ndAxes c.axes ctor).map (·.1)) := by
+  simp [genNd, hm, CfgN.gridR]
+
+/-- non-vacuity of `Fits` / `fixedMethod`: a 2-D Latin-hypercube generator with concrete constructor draws -/
+example : Fits [.f [0.5, 0.25], .n [1, 0], .f [0.75], .n [0]]
+    (Cfg.g2 (⟨.lhs, 2, 1, 0, 0, 1, 1, none⟩ : Cfg2 ℝ)).ctorShape := by
+  intro k hk
+  simp only [Cfg.ctorShape, Cfg2.ctorShape, List.length_cons, List.length_nil] at hk
+  have : k = 0 ∨ k = 1 ∨ k = 2 ∨ k = 3 := by omega
+  rcases this with rfl | rfl | rfl | rfl <;> simp [Cfg.ctorShape, Cfg2.ctorShape, fitsAt, dF, dN, Draw.fl, Draw.nat]
+example : fixedMethod (Cfg.g2 (⟨.lhs, 2, 1, 0, 0, 1, 1, none⟩ : Cfg2 ℝ)) = true := by decide
+
+/-! ### in-domain, assembled per class (all non-noisy methods; draws in the support of the RNG primitives) -/
+
+/-- every float draw of the list is a `torch.rand` value -/
+def UnitDraws (ds : List (Draw ℝ)) : Prop := ∀ k, ∀ u ∈ dF ds k, 0 ≤ u ∧ u < 1
+
+theorem perm_lt (perm : List ℕ) (n : ℕ) (hp : perm.Perm (List.range n)) : ∀ p ∈ perm, p < n :=
+  fun p hpm => List.mem_range.1 (hp.mem_iff.1 hpm)
+
+/-- **Generator1D**: every method except the two additive-noise ones stays in `[t_min, t_max]` -/
+theorem gen1d_in_domain (c : Cfg1 ℝ) (hab : c.a < c.b) (hm : c.m ≠ .eqNoisy ∧ c.m ≠ .logNoisy)
+    (hlog : c.m = .log → 0 < c.a) (call : List (Draw ℝ)) (hu : UnitDraws call)
+    (hp : c.m = .lhs → (dN call 1).Perm (List.range c.n)) :
+    ∀ col ∈ gen1d c call, ∀ x ∈ col, x ∈ Set.Icc c.a c.b := by
+  intro col hcol
+  unfold gen1d at hcol
+  cases hmm : c.m <;> rw [hmm] at hcol <;> simp only [List.mem_singleton] at hcol <;> subst hcol
+  · exact fun x hx => Set.Ico_subset_Icc_self (uniform_mem_Ico _ _ hab _ _ (hu 0) x hx)
+  · exact linspace_mem_Icc _ _ hab.le _
+  · exact absurd hmm hm.1
+  · exact logspace_mem_Icc _ _ (hlog hmm) hab.le _
+  · exact absurd hmm hm.2
+  · exact cheb1_mem_Icc _ _ hab.le _
+  · exact cheb2_mem_Icc _ _ hab.le _
+  · exact cheb2noisy_mem_Icc _ _ hab.le _ _
+  · exact lhs_mem_Icc _ _ hab _ _ _ (hu 0) (perm_lt _ _ (hp hmm))
+
+/-- **Generator2D**: component `k` of every non-additive-noise method stays in `[min_k, max_k]` -/
+theorem gen2d_in_domain (c : Cfg2 ℝ) (h0 : c.a0 < c.b0) (h1 : c.a1 < c.b1) (hm : c.m ≠ .eqNoisy)
+    (ctor call : List (Draw ℝ)) (hcu : UnitDraws ctor)
+    (hp : c.m = .lhs → (dN ctor 1).Perm (List.range c.n0) ∧ (dN ctor 3).Perm (List.range c.n1)) :
+    (∀ x ∈ (gen2d c ctor call).getD 0 [], x ∈ Set.Icc c.a0 c.b0) ∧
+    (∀ x ∈ (gen2d c ctor call).getD 1 [], x ∈ Set.Icc c.a1 c.b1) := by
+  rw [gen2d_is_mesh c hm]
+  have hlen : (c.axes ctor call).length = 2 := by unfold Cfg2.axes; cases c.m <;> rfl
+  have hx : ∀ x ∈ (c.axes ctor call).getD 0 [], x ∈ Set.Icc c.a0 c.b0 := by
+    unfold Cfg2.axes
+    cases hmm : c.m
+    · exact linspace_mem_Icc _ _ h0.le _
+    · exact absurd hmm hm
+    · exact cheb1_mem_Icc _ _ h0.le _
+    · exact cheb2_mem_Icc _ _ h0.le _
+    · exact cheb2noisy_mem_Icc _ _ h0.le _ _
+    · exact lhs_mem_Icc _ _ h0 _ _ _ (hcu 0) (perm_lt _ _ (hp hmm).1)
+  have hy : ∀ x ∈ (c.axes ctor call).getD 1 [], x ∈ Set.Icc c.a1 c.b1 := by
+    unfold Cfg2.axes
+    cases hmm : c.m
+    · exact linspace_mem_Icc _ _ h1.le _
+    · exact absurd hmm hm
+    · exact cheb1_mem_Icc _ _ h1.le _
+    · exact cheb2_mem_Icc _ _ h1.le _
+    · exact cheb2noisy_mem_Icc _ _ h1.le _ _
+    · exact lhs_mem_Icc _ _ h1 _ _ _ (hcu 2) (perm_lt _ _ (hp hmm).2)
+  exact ⟨fun x hxm => hx x (mesh_mem _ 0 (by omega) x hxm), fun x hxm => hy x (mesh_mem _ 1 (by omega) x hxm)⟩
+
+/-- **Generator3D** -/
+theorem gen3d_in_domain (c : Cfg3 ℝ) (h0 : c.a0 < c.b0) (h1 : c.a1 < c.b1) (h2 : c.a2 < c.b2) (hm : c.m ≠ .eqNoisy)
+    (ctor call : List (Draw ℝ)) (hcu : UnitDraws ctor)
+    (hp : c.m = .lhs → (dN ctor 1).Perm (List.range c.n0) ∧ (dN ctor 3).Perm (List.range c.n1) ∧
+      (dN ctor 5).Perm (List.range c.n2)) :
+    (∀ x ∈ (gen3d c ctor call).getD 0 [], x ∈ Set.Icc c.a0 c.b0) ∧
+    (∀ x ∈ (gen3d c ctor call).getD 1 [], x ∈ Set.Icc c.a1 c.b1) ∧
+    (∀ x ∈ (gen3d c ctor call).getD 2 [], x ∈ Set.Icc c.a2 c.b2) := by
+  rw [gen3d_is_mesh c hm]
+  have hlen : (c.axes ctor).length = 3 := by unfold Cfg3.axes; cases c.m <;> rfl
+  have hx : ∀ x ∈ (c.axes ctor).getD 0 [], x ∈ Set.Icc c.a0 c.b0 := by
+    unfold Cfg3.axes
+    cases hmm : c.m
+    · exact linspace_mem_Icc _ _ h0.le _
+    · exact absurd hmm hm
+    · exact cheb1_mem_Icc _ _ h0.le _
+    · exact cheb2_mem_Icc _ _ h0.le _
+    · exact lhs_mem_Icc _ _ h0 _ _ _ (hcu 0) (perm_lt _ _ (hp hmm).1)
+  have hy : ∀ x ∈ (c.axes ctor).getD 1 [], x ∈ Set.Icc c.a1 c.b1 := by
+    unfold Cfg3.axes
+    cases hmm : c.m
+    · exact linspace_mem_Icc _ _ h1.le _
+    · exact absurd hmm hm
+    · exact cheb1_mem_Icc _ _ h1.le _
+    · exact cheb2_mem_Icc _ _ h1.le _
+    · exact lhs_mem_Icc _ _ h1 _ _ _ (hcu 2) (perm_lt _ _ (hp hmm).2.1)
+  have hz : ∀ x ∈ (c.axes ctor).getD 2 [], x ∈ Set.Icc c.a2 c.b2 := by
+    unfold Cfg3.axes
+    cases hmm : c.m
+    · exact linspace_mem_Icc _ _ h2.le _
+    · exact absurd hmm hm
+    · exact cheb1_mem_Icc _ _ h2.le _
+    · exact cheb2_mem_Icc _ _ h2.le _
+    · exact lhs_mem_Icc _ _ h2 _ _ _ (hcu 4) (perm_lt _ _ (hp hmm).2.2)
+  exact ⟨fun x hxm => hx x (mesh_mem _ 0 (by omega) x hxm), fun x hxm => hy x (mesh_mem _ 1 (by omega) x hxm),
+    fun x hxm => hz x (mesh_mem _ 2 (by omega) x hxm)⟩
+
+/-- what the property's quantifier asks of one N-D axis: `min < max`, positive bounds for log spacing,
+    a base above one for exp spacing -/
+def AxisOk (ax : Axis ℝ) : Prop := ax.a < ax.b ∧ (ax.m = .log → 0 < ax.a) ∧ (ax.m = .exp → 1 < ax.base)
+
+theorem axis_nodes_in_domain (ax : Axis ℝ) (h : AxisOk ax) (u : List ℝ) (hu : ∀ v ∈ u, 0 ≤ v ∧ v < 1) :
+    ∀ x ∈ (ax.nodes u).1, x ∈ Set.Icc ax.a ax.b := by
+  obtain ⟨hab, hlog, hexp⟩ := h
+  unfold Axis.nodes
+  cases hm : ax.m
+  · exact linspace_mem_Icc _ _ hab.le _
+  · exact fun x hx => Set.Ico_subset_Icc_self (uniform_mem_Ico _ _ hab _ _ hu x hx)
+  · exact logspace_mem_Icc _ _ (hlog hm) hab.le _
+  · exact expspace_mem_Icc _ _ _ (hexp hm) hab.le _
+  · exact cheb1_mem_Icc _ _ hab.le _
+  · exact cheb2_mem_Icc _ _ hab.le _
+
+theorem unitDraws_drop (ds : List (Draw ℝ)) (h : UnitDraws ds) : UnitDraws (ds.drop 1) := by
+  intro k u hu
+  have : dF (ds.drop 1) k = dF ds (k + 1) := by
+    simp [dF, List.getD_eq_getElem?_getD]
+  rw [this] at hu
+  exact h _ u hu
+
+theorem ndAxes_in_domain (axes : List (Axis ℝ)) (hok : ∀ ax ∈ axes, AxisOk ax) :
+    ∀ ds, UnitDraws ds → ∀ k (hk : k < axes.length), ∀ x ∈ ((ndAxes axes ds).map (·.1)).getD k [],
+      x ∈ Set.Icc axes[k].a axes[k].b := by
+  induction axes with
+  | nil => intro ds _ k hk; simp at hk
+  | cons ax rest ih =>
+    intro ds hds k hk
+    have hax := hok ax (by simp)
+    have hrest : ∀ a ∈ rest, AxisOk a := fun a ha => hok a (by simp [ha])
+    unfold ndAxes
+    split
+    · cases k with
+      | zero => exact axis_nodes_in_domain ax hax _ (hds 0)
+      | succ k => exact ih hrest _ (unitDraws_drop ds hds) k (by simpa using hk)
+    · cases k with
+      | zero => exact axis_nodes_in_domain ax hax _ (by simp)
+      | succ k => exact ih hrest _ hds k (by simpa using hk)
+
+/-- **GeneratorND** without `noisy`: component `k` stays in `[r_min[k], r_max[k]]` for every method, any number
+    of axes -/
+theorem genNd_in_domain (c : CfgN ℝ) (hn : c.noisy = false) (hok : ∀ ax ∈ c.axes, AxisOk ax)
+    (ctor call : List (Draw ℝ)) (hcu : UnitDraws ctor) (k : ℕ) (hk : k < c.axes.length) :
+    ∀ x ∈ (genNd c ctor call).getD k [], x ∈ Set.Icc c.axes[k].a c.axes[k].b := by
+  rw [genNd_is_mesh c hn]
+  intro x hx
+  have hlen : k < ((ndAxes c.axes ctor).map (·.1)).length := by simp [ndAxes_length, hk]
+  exact ndAxes_in_domain c.axes hok ctor hcu k hk x (mesh_mem _ k hlen x hx)
+
+/-- **fresh, Generator1D**: for 'uniform' and the two additive-noise methods, two calls that return the same
+    points drew the same values (`n ≥ 1`, `t_min < t_max`, default noise scale) -/
+theorem fresh_gen1d (c : Cfg1 ℝ) (hab : c.a < c.b) (hn : 0 < c.n) (hnoise : c.noise = none)
+    (hm : c.m = .uniform ∨ c.m = .eqNoisy ∨ c.m = .logNoisy) (call call' : List (Draw ℝ))
+    (hl : (dF call 0).length = c.n) (hl' : (dF call' 0).length = c.n)
+    (h : gen1d c call = gen1d c call') : dF call 0 = dF call' 0 := by
+  have hs : c.std ≠ 0 := by
+    unfold Cfg1.std; rw [hnoise]; exact (defaultStd_pos _ _ hab _ hn).ne'
+  unfold gen1d at h
+  rcases hm with e | e | e <;> rw [e] at h <;> simp only [List.cons.injEq, and_true] at h
+  · apply List.ext_getElem (by omega)
+    intro i h1 h2
+    have hi : i < c.n := by omega
+    have := congrArg (fun l => l[i]?) h
+    simp only [uniform, List.getElem?_map, List.getElem?_range hi, Option.map_some, Option.some.injEq,
+      nth_eq_getElem _ i h1, nth_eq_getElem _ i h2] at this
+    exact fresh_uniform _ _ _ _ hab this
+  · exact fresh_noisyS _ _ _ _ hs (by simp [linspace, hl]) (by simp [linspace, hl']) h
+  · exact fresh_noisyS _ _ _ _ hs (by simp [logspace, hl]) (by simp [logspace, hl']) h
+
+example : AxisOk (⟨.exp, 4, -1, 2, 10, none⟩ : Axis ℝ) := by
+  refine ⟨by norm_num, by simp, by intro; norm_num⟩
+example : UnitDraws [.f [0.5, 0.25], .n [1, 0]] := by
+  intro k u hu
+  have : k = 0 ∨ k = 1 ∨ 2 ≤ k := by omega
+  rcases this with rfl | rfl | h
+  · simp [dF, Draw.fl] at hu; rcases hu with rfl | rfl <;> norm_num
+  · simp [dF, Draw.fl] at hu
+  · have : dF ([.f [0.5, 0.25], .n [1, 0]] : List (Draw ℝ)) k = [] := by
+      simp [dF, List.getD_eq_getElem?_getD, List.getElem?_eq_none (by simpa using h : ([.f [0.5, 0.25], .n [1, 0]] : List (Draw ℝ)).length ≤ k), Draw.fl]
+    rw [this] at hu; simp at hu
+
 end NdeVerif.C07
